@@ -1445,15 +1445,17 @@ class UserSessionManager(Service, discriminator="user-session-manager"):
         """
         return self._login(username=username, password=password, local=False, remote_ip_address=remote_ip_address)
 
-    def _logout(self, local: bool = True, remote_session_id: Optional[str] = None) -> bool:
+    def _logout(self, local: bool = True, remote_session_id: Optional[str] = None, force: bool = False) -> bool:
         """
         Logs a user out either locally or remotely.
 
         :param local: Whether the logout is local or remote.
         :param remote_session_id: The remote session ID for remote logout.
+        :param force: End the session even while this service is not running (a password change ends a user's sessions
+            whatever state the session manager is in).
         :return: True if logout successful, otherwise False.
         """
-        if not self._can_perform_action():
+        if not force and not self._can_perform_action():
             return False
         session = None
         if local and self.local_session:
@@ -1495,9 +1497,9 @@ class UserSessionManager(Service, discriminator="user-session-manager"):
         ended = False
         for sess_id, session in list(self.remote_sessions.items()):
             if session.user is user:
-                ended = self._logout(local=False, remote_session_id=sess_id) or ended
+                ended = self._logout(local=False, remote_session_id=sess_id, force=True) or ended
         if self.local_user_logged_in and self.local_session.user is user:
-            ended = self.local_logout() or ended
+            ended = self._logout(local=True, force=True) or ended
         return ended
 
     @property
